@@ -3,6 +3,7 @@
 harness/clangtee (given to cppcheck as the clang executable) writes <prefix>.argv, <prefix>.fds and <prefix>.strace; read_run()
 turns them into the events of one run, validate() lets TLC decide whether the runs are behaviours of the specification and
 whether Intact / Delivered hold in every state of them."""
+import math
 import os
 import re
 import shutil
@@ -40,9 +41,13 @@ def read_run(prefix, label):
 def _rows(runs):
     rows = []
     for r in runs:
-        sizes = sorted({e["n"] for e in r["events"] if e["fd"] == 1})
+        w1 = [e["n"] for e in r["events"] if e["fd"] == 1]
+        sizes = sorted(set(w1))
+        g = 0
+        for n in w1[:-1]:                  # every write but the last is a multiple of the buffer size
+            g = math.gcd(g, n)
         rows.append({"e": "Header", "label": r["label"], "carets": r["carets"], "merged": r["merged"],
-                     "bufs": sizes or [1], "tails": [0] + sizes})
+                     "bufs": sorted(set(sizes + ([g] if g else []))) or [1], "tails": [0] + sizes})
         rows += r["events"]
     rows.append({"e": "End"})
     return rows
